@@ -1,5 +1,6 @@
 import ParryModel.C13.DriverA
 import ParryModel.C13.Model4
+import ParryModel.C13.Model5
 /-!
 C13 protocol handlers, growth round fu4 (the earlier handlers are in `DriverA.lean`):
 `with_inertia_matrix` after `symmetric_eigen`, inverse tensors, `set_mass`, assign operators / folds,
@@ -485,6 +486,33 @@ def handler5 (fn : String) : Option Handler :=
               if v.startsWith "fail principal-frame" then
                 "skip eigenvectors-inaccurate (nalgebra symmetric_eigen finding, reported through mp3_add_tensor)" else v
             both (known (judgeTensor3 want sc l l)) (known (judgeTensor3 want sc r r))
+        | none => "skip bad-args" }
+  | "mp2_world" => some {
+      model := fun a => run (do let p ← pmp2; let m ← piso2; pure s!"{fv2 (p.worldCom m)} {ff (p.worldInvInertiaSqrt m)}") a
+      oracle := fun a o => match run (do let p ← pmp2; let m ← piso2; pure (p, m)) a with
+        | some (p, m) => withOut (do let x ← pfo; let y ← pfo; let i ← pfo; pure (x, y, i)) o fun (x, y, i) =>
+            let M := qiso2 m
+            let c := q2 p.com
+            let want : V2 Rat := ⟨M.re * c.x - M.im * c.y + M.t.x, M.im * c.x + M.re * c.y + M.t.y⟩
+            let s := rabs c.x + rabs c.y + rabs M.t.x + rabs M.t.y + 1 / 1000000
+            if !(FloatIO.isFinite x && FloatIO.isFinite y) then "fail nonfinite-output"
+            else if q i ≠ q p.invI then "fail inertia-changed-by-rotation"
+            else if close (q x) want.x s && close (q y) want.y s then "pass"
+            else s!"fail world-com got=({q x},{q y}) want=({want.x},{want.y})"
+        | none => "skip bad-args" }
+  | "mp3_world_com" => some {
+      model := fun a => run (do let p ← pmp3; let m ← piso3; pure (fv3 (p.worldCom m))) a
+      oracle := fun a o => match run (do let p ← pmp3; let m ← piso3; pure (p, m)) a with
+        | some (p, m) => withOut pov3 o fun out =>
+            if !finite3 out then "fail nonfinite-output" else
+            let M := qiso3 m
+            let Rm := rotOfQuat M.qi M.qj M.qk M.qw
+            let c := q3 p.com
+            let rc : V3 Rat := ⟨rget Rm 0 0 * c.x + rget Rm 0 1 * c.y + rget Rm 0 2 * c.z + M.t.x,
+                                rget Rm 1 0 * c.x + rget Rm 1 1 * c.y + rget Rm 1 2 * c.z + M.t.y,
+                                rget Rm 2 0 * c.x + rget Rm 2 1 * c.y + rget Rm 2 2 * c.z + M.t.z⟩
+            let s := rabs c.x + rabs c.y + rabs c.z + rabs M.t.x + rabs M.t.y + rabs M.t.z + 1 / 1000000
+            if close (q out.x) rc.x s && close (q out.y) rc.y s && close (q out.z) rc.z s then "pass" else "fail world-com"
         | none => "skip bad-args" }
   | _ => none
 
